@@ -154,8 +154,11 @@ func (self Value) GetByPath(pathes ...Path) Value {
 			if i == len(pathes)-1 && err == errNotFound {
 				return Value{errNotFoundLast(unsafe.Pointer(uintptr(self.v)+uintptr(start)), tt), nil}
 			}
-			en := err.(Node)
-			return errValue(en.ErrCode().Behavior(), "", err)
+			// NOTICE: not every search reports its failure as a Node (searchFieldName wraps the read error)
+			if en, ok := err.(Node); ok {
+				return errValue(en.ErrCode().Behavior(), "", err)
+			}
+			return errValue(meta.ErrRead, "", err)
 		}
 	}
 
